@@ -17,6 +17,9 @@
   `r' = −r − 2·dlog(H)` gives the same x coordinate, and a proof with extra leading zero bytes is the
   same integer. What holds, and is proved, is `dead_verify_iff`.
 -/
+import BtcVerif.Props.GuardPins.P_bhash
+import BtcVerif.Props.GuardPins.P_script
+import BtcVerif.Props.GuardPins.P_taproot
 import BtcVerif.Proofs.Taproot
 
 namespace BtcVerif.Props.C13
